@@ -199,7 +199,9 @@ def _parse_tlc(r):
     if m:
         r.rejected_at = int(m.group(1))
     if r.invariant is None and r.property is None and r.rejected_at is None and not r.timed_out:
-        errs = [l for l in out.splitlines() if l.startswith("Error:") or "Exception" in l or "*** Errors" in l]
+        ol = out.splitlines()
+        errs = [(l + " | " + " | ".join(ol[i + 1:i + 3])) if l.startswith("Error: when writing") else l
+                for i, l in enumerate(ol) if l.startswith("Error:") or "Exception" in l or "*** Errors" in l]
         errs = [e for e in errs if "Postcondition" not in e]
         if errs or (r.rc not in (0, None) and "No error has been found" not in out and "Finished in" not in out):
             r.error = "\n".join(errs[:5]) or ("tlc exit %s" % r.rc)
